@@ -105,6 +105,41 @@ def near_dispatch(ctx):
             r.check(ok, "grids %s, mode %s" % ("identical" if same else "different", mode), EX, "ExafmmInterface.from_grid", fg.lineno, "near-field correction for %s grids, mode %s" % ("identical" if same else "different", mode), msg)
 
 
+def csr_counter(ctx):
+    """get_local_interaction_matrix_impl: the running entry counter of the CSR arrays."""
+    from . import roles
+
+    HE = "bempp_cl/api/fmm/helpers.py"
+    r = ctx.rule("FMM-NEAR-CSR", "sparse near-field matrix: per target element the entry counter starts at 4*np*np*(neighbour offset of the element), every row pointer records it before the row's entries, data and indices are written at the counter, which then advances by one", 1)
+    fn = ctx.repo.mod(HE).fn("get_local_interaction_matrix_impl")
+    defs = roles.Defs(fn)
+    KEEP = tuple({n.id for n in ast.walk(fn) if isinstance(n, ast.Name)})
+    S = roles.stores(fn.body, defs, keep=KEEP, lv=False)
+    deep = [s for s in S if len(s.loops) == 5]
+    ok, msg = False, "innermost loop nest not found"
+    if deep:
+        lT, lP, lC, lS, lQ = deep[0].loops
+        incs = [s for s in deep if s.op != "=" and isinstance(s.tnode, ast.Name)]
+        sts = [s for s in deep if s.op == "=" and isinstance(s.tnode, ast.Subscript)]
+        if len(incs) == 1 and incs[0].op == "Add=" and incs[0].value == "1" and not incs[0].guards:
+            C = incs[0].target
+            at_c = [s for s in sts if unparse(s.tnode.slice) == C]
+            arrays = sorted(unparse(s.tnode.value) for s in at_c)
+            after = all(incs[0].node.lineno > s.node.lineno for s in at_c)
+            init = [s for s in S if s.op == "=" and s.target == C and s.loops == (lT,)]
+            T = lT.target.id if isinstance(lT.target, ast.Name) else "?"
+            np_ = unparse(lQ.iter.args[0]) if isinstance(lQ.iter, ast.Call) and lQ.iter.args else "?"
+            want_init = roles.expect("4 * N * N * P[T]", defs, init[0].node.lineno, keep=KEEP, lv=False, N=np_, P="neighbor_indexptr", T=T) if init else None
+            ptr = [s for s in S if s.loops == (lT, lP, lC) and s.op == "=" and isinstance(s.tnode, ast.Subscript)]
+            okp = len(ptr) == 1 and unparse(ptr[0].vnode) == C and ptr[0].node.lineno < lS.lineno
+            ok = len(at_c) == 2 and after and len(init) == 1 and init[0].value == want_init and okp and init[0].node.lineno < lP.lineno
+            msg = "arrays written at the counter: %s (expected data and indices); counter advanced after them: %s; starts at `%s` (expected `%s`); row pointer records the counter before the row: %s" % (
+                arrays, after, init[0].value if init else None, want_init, okp)
+        else:
+            msg = "the entry counter is not a single `+= 1` in the innermost loop (found %s)" % [(s.target, s.op, s.value) for s in incs]
+    r.check(ok, "get_local_interaction_matrix_impl", HE, fn.name, fn.lineno, "CSR entry counter", msg)
+
+
 def fmm_mode(ctx):
     r = ctx.rule("FMM-MODE", "get_mode_from_operator_identifier maps every identifier the factories produce to its kernel family (laplace / helmholtz / modified_helmholtz; Maxwell -> helmholtz) and rejects the others", 20)
     fn = ctx.repo.mod(FA).fn("get_mode_from_operator_identifier")
